@@ -133,6 +133,9 @@ class Auth(object):
         if e:
             raise e
 
+        if length < 1 or len(data) != salt_length + length:
+            raise ValueError("invalid hash length")
+
         salt = data[:salt_length]
         expected = data[salt_length:]
 
